@@ -37,8 +37,10 @@ class Ctx:
         self.notes = []
         self.findings = [f for f in load_findings() if f.get('property') == prop]
         self.replayed = 0
-        self.budget_s = None
+        self.budget_s = float(os.environ.get('VP_BUDGET', '300' if tier == 'quick' else '2700'))
         self.extra_cov = {}
+        import threading
+        self.lock = threading.RLock()
 
     # ------------------------------------------------------------------
     def log(self, msg):
@@ -71,7 +73,8 @@ class Ctx:
     def record(self, name, status, **kw):
         ob = dict(name=name, status=status)
         ob.update(kw)
-        self.obligations.append(ob)
+        with self.lock:
+            self.obligations.append(ob)
         return ob
 
     def violation(self, case, text, payload, key=None):
@@ -102,7 +105,10 @@ class Ctx:
         if not jobs:
             return
         t = time.time()
-        cbmc.run_jobs(jobs)
+        deadline = None
+        if self.budget_s is not None:
+            deadline = self.t0 + self.budget_s
+        cbmc.run_jobs(jobs, deadline=deadline)
         for j in jobs:
             self._digest(j)
         self.log('%d cbmc jobs in %.1fs' % (len(jobs), time.time() - t))
@@ -115,6 +121,9 @@ class Ctx:
                    variables=st.get('variables', 0), solver_s=round(st.get('solver_s', 0.0), 2),
                    wall_s=round(st.get('wall_s', 0.0), 2), properties=st.get('properties', 0))
         harness_c = j.sources[0]
+        if j.status == 'skipped':
+            self.record(j.name, 'not-run', reason=j.reason, **rec)
+            return
         if j.expect == 'witness':
             # the WITNESS assertion must be violated (reachability)
             wit = [f for f in j.failed if 'WITNESS' in (f[1] or '')]
@@ -140,6 +149,9 @@ class Ctx:
         if j.status == 'proved':
             self.record(j.name, 'proved', **rec)
             return
+        if j.status == 'skipped':
+            self.record(j.name, 'not-run', reason=j.reason, **rec)
+            return
         if j.status == 'inconclusive':
             self.record(j.name, 'inconclusive', reason=j.reason, **rec)
             if getattr(j, 'unwind_failed', None):
@@ -163,7 +175,7 @@ class Ctx:
             payload = dict(property=self.prop, job=j.name, meta={k: v for k, v in meta.items() if isinstance(v, (str, int, float, list, dict))},
                            cbmc_property=prop, assertion=desc, inputs=vals, native=r, cmd=j.cmd,
                            harness=os.path.basename(harness_c), flex_input=meta.get('flex_input', ''),
-                           location=loc)
+                           harness_text=_read(harness_c), location=loc)
             if r['outcome'] in ('assert', 'sanitizer', 'timeout'):
                 reproduced = True
                 key = dict(entry=meta.get('entry'), config=meta.get('config'), engine=meta.get('engine'),
@@ -226,7 +238,22 @@ class Ctx:
             explanation='states = SSA steps summed over cbmc queries; transitions = SAT clauses summed; '
                         'traces_validated_against_impl = solver traces (witnesses, counterexamples) replayed on a native build',
         )
+        by_engine = {}
+        for o in obs:
+            e = by_engine.setdefault(str(o.get('engine')), dict(count=0, wall_s=0.0, max_wall_s=0.0, solver_s=0.0))
+            e['count'] += 1
+            e['wall_s'] = round(e['wall_s'] + o.get('wall_s', 0), 1)
+            e['solver_s'] = round(e['solver_s'] + o.get('solver_s', 0), 1)
+            e['max_wall_s'] = max(e['max_wall_s'], o.get('wall_s', 0))
+        cov['by_engine'] = by_engine
         cov.update(self.extra_cov)
+        try:
+            os.makedirs(os.path.join(VERIF, 'logs'), exist_ok=True)
+            with open(os.path.join(VERIF, 'logs', '%s.%s.obligations.jsonl' % (self.prop, self.tier)), 'w') as fh:
+                for o in obs:
+                    fh.write(json.dumps(o, sort_keys=True, default=str) + '\n')
+        except OSError:
+            pass
         ev = dict(property_id=self.prop, tier=self.tier, seed=self.seed, level='model_checking',
                   coverage=cov, assumptions=self.assumptions, wall_s=round(wall, 1),
                   violations=len(self.violations))
@@ -248,6 +275,14 @@ class Ctx:
                 print('BROKEN: ' + b)
             return 2
         return 0
+
+
+def _read(path):
+    try:
+        with open(path, errors='replace') as fh:
+            return fh.read()
+    except OSError:
+        return ''
 
 
 def _short(vals):
